@@ -66,7 +66,9 @@ def install(ctx, repo, probes):
               "shift/basic", "shift/ext", "shift/expanded", "shift/no-zone",
               "shift/utc", "shift/negative-offset", "shift/multi-offset",
               "shift/nominal-offset", "shift/ref-env", "shift/ref-option",
-              "shift/print-format", "shift/parse-format", "diff/plain", "diff/offsets",
+              "shift/print-format", "shift/parse-format",
+              "shift/print-strftime", "shift/print-strftime-fallback",
+              "shift/print-strftime-fallback-week-date", "diff/plain", "diff/offsets",
               "diff/as-total", "diff/negative", "diff/zero", "diff/zero-as-total",
               "diff/same-nominal-offsets-both-sides", "total/zero", "rec/forward", "rec/reverse",
               "total/duration", "malformed/exit", "child/ok",
@@ -457,6 +459,79 @@ def make_print_format(rng, mode):
             "nontrivial": True}
 
 
+STRFTIME_PRINT_FORMATS = (
+    # understood by the library's own strftime
+    "%Y-%m-%dT%H:%M:%S", "%d/%m/%Y %H:%M", "%Y%m%d %j",
+    # only the C-library fallback knows these directives
+    "%a %d %b %Y", "%A, %d %B %Y %H:%M:%S", "%y%m%d", "%b %e %Y",
+    "%Y-%m-%d %a", "%d %b %y %H:%M",
+)
+
+
+def make_print_strftime(rng):
+    """Gregorian only: a strftime-style --print-format; expected text from
+    datetime.strftime (C locale) on the reference's calendar fields"""
+    import datetime as _dt
+    mode = "gregorian"
+    text, pt, notation = spell_point(rng, mode, allow_reduced=False)
+    if rng.random() < 0.4:
+        # near New Year (where an ISO week-year differs from the civil year)
+        y = gen.rand_year(rng, 1000, 8999)
+        rd = R.days_before_year(mode, y) + rng.choice((-3, -2, -1, 0, 1, 2))
+        rep = notation["rep"]
+        date = tuple(R.rd_to_date(mode, rep, rd))
+        notation = dict(notation, nexp=0, kind="complete")
+        pt = dict(pt, date=date)
+        sod = int(pt["sod"])
+        h, rem = divmod(sod, 3600)
+        mi, sec = divmod(rem, 60)
+        tt = {"hms": "T" + T.enc_time(h, mi, sec, notation["ext"]),
+              "hm": "T" + T.enc_time(h, mi, None, notation["ext"]),
+              "h": "T" + T.enc_time(h, None, None, notation["ext"]),
+              "none": ""}[notation["tform"]]
+        zt = ""
+        if notation["zform"] == "Z":
+            zt = "Z"
+        elif notation["zform"] in ("hh", "hhmm"):
+            zt = T.enc_zone(divmod_off(pt["off"]), notation["zform"],
+                            notation["ext"])
+        text = T.enc_date(rep, date, notation["ext"], 0) + tt + zt
+    if notation["zform"] == "none":
+        pt = in_local(mode, pt, 0)
+    offs = [spell_offset(rng, notation, nominal_ok=False)
+            for _ in range(rng.choice((0, 1)))]
+    result = apply_offsets(mode, pt, [o[1] for o in offs])
+    rd = R.date_to_rd(mode, result["rep"], result["date"])
+    sod = int(result["sod"])
+    rd, sod = rd + sod // 86400, sod % 86400
+    y, mth, d = R.rd_to_ymd(mode, rd)
+    if not 1000 <= y <= 8999:
+        return make_print_strftime(rng)
+    fmt = rng.choice(STRFTIME_PRINT_FORMATS)
+    expect = _dt.datetime(y, mth, d, sod // 3600, sod // 60 % 60,
+                          sod % 60).strftime(fmt) + "\n"
+    argv = [text] + offset_args(rng, [o[0] for o in offs]) + [
+        rng.choice(("--print-format", "--format=", "-f"))]
+    if argv[-1].endswith("="):
+        argv[-1] += fmt
+    else:
+        argv.append(fmt)
+    cls = ["shift/print-strftime"]
+    if "%a" in fmt or "%b" in fmt or "%A" in fmt or "%y" in fmt:
+        cls.append("shift/print-strftime-fallback")
+        if notation["rep"] == "week":
+            cls.append("shift/print-strftime-fallback-week-date")
+    return {"op": "run", "argv": argv, "env": {}, "local": [0, 0],
+            "expect": {"stdout": expect}, "classes": cls,
+            "nontrivial": True}
+
+
+def divmod_off(minutes):
+    sign = -1 if minutes < 0 else 1
+    h, m = divmod(abs(minutes), 60)
+    return (sign * h, sign * m)
+
+
 def make_diff(rng, mode):
     t1, p1, n1 = spell_point(rng, mode, allow_reduced=False)
     t2, p2, n2 = spell_point(rng, mode, allow_reduced=False,
@@ -784,7 +859,8 @@ def workload(ctx, repo):
                 else rng.choice(("option", "env", "neither", "both", "both"))
             case = make_shift(rng, (mode, how))
         elif v < 11:
-            case = make_print_format(rng, mode)
+            case = make_print_format(rng, mode) if (k // 20) % 2 else \
+                make_print_strftime(rng)
         elif v < 14:
             case = make_diff(rng, mode)
         elif v == 14:
